@@ -33,12 +33,15 @@
 (*   RestoreUsesInitial  after DW_CFA_restore(r) the rule of r is the CIE's *)
 (*                       initial rule, or absent when there is none         *)
 (*   TableMonotone       rows are created at strictly increasing locations  *)
+(*   PersRoundTrip       personality pointer: decode(encode(v)) = v in      *)
+(*                       every encoding, negative iff signed format and     *)
+(*                       sign bit set, all admissible reports = one address *)
 (*                                                                         *)
 (* Configurations (spec/cfg): CFI_scan_* (Mode "scan": whole entries are   *)
 (* added; all sections of <= 3 entries + terminator over the scan          *)
 (* alphabets), CFI_prog1/2/3/4_* (Mode "prog": the program of one FDE      *)
 (* grows one instruction at a time from every CIE pre-state; every prefix  *)
-(* is a case), CFI_sim* (Mode "sim": random long programs, -simulate).     *)
+(* is a case), CFI_pers_* (Mode "pers", see below), CFI_sim* (Mode "sim": random long programs, -simulate).     *)
 (* Every reachable state that is Complete, WellFormed and whose programs   *)
 (* satisfy Pre is emitted as one case: bytes, ViewScan, ViewTables, the    *)
 (* tables under the known deviation C06.def_cfa_sf (`alt`, only when they  *)
@@ -64,6 +67,22 @@
 (* terminator, FDE -> CIE links across a terminator, tables).  TLC checks  *)
 (* TerminatorPrefix: ScanLsb(Enc(sec)) is that prefix of the view.         *)
 (*                                                                         *)
+(* Personality routine pointer (Mode "pers", cfgs CFI_pers_quick and       *)
+(* CFI_pers_thorough): the pointer                                          *)
+(* of a 'P' CIE ranges over all 18 encodings x the value classes of the     *)
+(* format (PersRaws: extremes of the field, negative values, values whose   *)
+(* byte order shows).  LSB 10.5.1 fixes the number a format denotes         *)
+(* (DW_EH_PE_sdata2/4/8, sleb128: "a signed value"; udata*, uleb128,        *)
+(* absptr unsigned) and, for the absolute application, that it is "used     *)
+(* with no modification".  A value outside [0, 2^(8*address size)) - a      *)
+(* negative one, or an 8-byte one on a 4-byte target - is no address of the *)
+(* target: a reader reports the number itself (this library) or the address *)
+(* it designates modulo 2^(8*address size) (what a GNU unwinder computes in *)
+(* a pointer-sized word); PersDen is that set, a singleton for values       *)
+(* inside the address space, and `persv` carries it.  A reader that drops   *)
+(* the signedness of the format is outside it for every signed format under *)
+(* at least one address size.                                               *)
+(*                                                                         *)
 (* Not asserted (the standards do not fix them): the key under which 'S'   *)
 (* appears in augmentation_dict; the personality pointer value under pcrel *)
 (* (the library reports the raw value); DW_CFA_set_loc under a non-absptr  *)
@@ -80,7 +99,7 @@
 (***************************************************************************)
 EXTENDS Bytes, TLC, Json, CSV, IOUtils
 
-CONSTANTS Mode,        \* "scan" | "scanz" | "prog" | "sim"
+CONSTANTS Mode,        \* "scan" | "scanz" | "pers" | "prog" | "sim"
           Pars,        \* set of section parameter records (scan) / the one used by prog
           MaxEnts,     \* scan: entries per section
           Letters,     \* prog/sim: instruction alphabet of the FDE program
@@ -426,6 +445,17 @@ RawZero(v) == IF IsSmall(v) THEN v.n = 0 ELSE \A i \in DOMAIN v.d : v.d[i] = 0
 PtrOK(p, enc, v, fieldoff) == Fits(PtrVal9(p, enc, v, fieldoff), p.asz) /\ (EncPcrel(enc) => ~RawZero(v))
 W8(d9) == W(DTrunc(d9, 8))
 
+\* What a reader may report for the personality routine pointer of a 'P' CIE, given the stored value as 9
+\* sign/zero-extended digits (module header, "Personality routine pointer"): the number the DW_EH_PE format denotes
+\* (LSB 10.5.1: udata*/uleb128/absptr unsigned, sdata*/sleb128 "a signed value": negative when the sign bit of
+\* the stored field is set), or the address that number designates in the address space of asz bytes.  For a
+\* value inside [0, 2^(8*asz)) the two coincide.
+PersNeg(enc, s9) == FmtSigned(EncFmt(enc)) /\ s9[9] = 255
+PersDen(asz, enc, s9) == {IF PersNeg(enc, s9) THEN WS(DTrunc(s9, 8)) ELSE W(DTrunc(s9, 8)), W(DTrunc(DTrunc(s9, asz), 8))}
+PersCls(enc, s9) == IF EncPcrel(enc) THEN "pcrel" ELSE IF PersNeg(enc, s9) THEN "abs_signed_negative"
+                    ELSE IF FmtSigned(EncFmt(enc)) THEN "abs_signed_nonneg" ELSE "abs_unsigned"
+NoPers == [v |-> {}, cls |-> "none"]
+
 InsView(ins) == [op |-> ins.op, byte |-> OpcodeByte(ins), a |-> ins.a]
 NopView == [op |-> "DW_CFA_nop", byte |-> 0, a |-> <<>>]
 InsListView(e) == TLCEval([i \in 1..(Len(e.ins) + e.pad) |-> IF i <= Len(e.ins) THEN InsView(e.ins[i]) ELSE NopView])
@@ -442,6 +472,9 @@ ViewCie(p, c, off, len) ==
    fenc |-> IF Has(c.aug, cR) THEN c.fenc ELSE -1, lenc |-> IF Has(c.aug, cL) THEN c.lenc ELSE -1,
    penc |-> IF Has(c.aug, cP) THEN c.penc ELSE -1,
    pers |-> IF Has(c.aug, cP) THEN W8(Ext9(c.pers, FmtSigned(EncFmt(c.penc)))) ELSE W8(LEn(0, 9)),
+   persv |-> IF Has(c.aug, cP) THEN LET s9 == Ext9(c.pers, FmtSigned(EncFmt(c.penc))) IN
+                                    [v |-> PersDen(p.asz, c.penc, s9), cls |-> PersCls(c.penc, s9)]
+             ELSE NoPers,
    ins |-> InsListView(c)]
 ViewFde(p, s, i, o) ==
   LET f == s[i]   c == s[f.cie]
@@ -532,7 +565,9 @@ ReadAug(bs, aug, i, pos, asz, le, acc) ==
   ELSE CASE aug[i] = cR -> ReadAug(bs, aug, i + 1, pos + 1, asz, le, [acc EXCEPT !.fenc = bs[pos + 1]])
          [] aug[i] = cL -> ReadAug(bs, aug, i + 1, pos + 1, asz, le, [acc EXCEPT !.lenc = bs[pos + 1]])
          [] aug[i] = cP -> LET e == bs[pos + 1]   d == PtrDec(bs, pos + 1, EncFmt(e), asz, le) IN
-                           ReadAug(bs, aug, i + 1, pos + 1 + d.used, asz, le, [acc EXCEPT !.penc = e, !.pers = W8(d.v)])
+                           ReadAug(bs, aug, i + 1, pos + 1 + d.used, asz, le,
+                                   [acc EXCEPT !.penc = e, !.pers = W8(d.v),
+                                               !.persv = [v |-> PersDen(asz, e, d.v), cls |-> PersCls(e, d.v)]])
          [] aug[i] = cS -> ReadAug(bs, aug, i + 1, pos, asz, le, acc)
          [] OTHER -> acc
 
@@ -556,14 +591,14 @@ ParseCIE(bs, off, p) ==
       hasz == HasZ(cs.s)
       al == IF hasz THEN LebAt(bs, p5, FALSE) ELSE [v |-> N(0), used |-> 0]
       p6 == p5 + al.used
-      ad == ReadAug(bs, cs.s, 2, p6, asz, p.le, [fenc |-> -1, lenc |-> -1, penc |-> -1, pers |-> W8(LEn(0, 9))])
+      ad == ReadAug(bs, cs.s, 2, p6, asz, p.le, [fenc |-> -1, lenc |-> -1, penc |-> -1, pers |-> W8(LEn(0, 9)), persv |-> NoPers])
       sp == SplitInstrs(bs, p6 + al.v.n, end, asz, p.le)    \* instructions start after the augmentation data
   IN [k |-> "CIE", off |-> off, len |-> rl.len, ver |-> ver, aug |-> cs.s,
       id |-> W(DTrunc(NormLE(Slice(bs, off + rl.hdr + 1, ow), p.le), 8)),
       persabs |-> ~(ad.penc # -1 /\ EncPcrel(ad.penc)),
       asz |-> IF v4 THEN bs[p1 + 1] ELSE -1, seg |-> IF v4 THEN bs[p1 + 2] ELSE -1,
       caf |-> caf.v.n, daf |-> daf.v.n, rar |-> rar.v.n, hasz |-> hasz, augb |-> Slice(bs, p6 + 1, al.v.n),
-      fenc |-> ad.fenc, lenc |-> ad.lenc, penc |-> ad.penc, pers |-> ad.pers, ins |-> sp.ins, stop |-> sp.stop, end |-> end]
+      fenc |-> ad.fenc, lenc |-> ad.lenc, penc |-> ad.penc, pers |-> ad.pers, persv |-> ad.persv, ins |-> sp.ins, stop |-> sp.stop, end |-> end]
 
 \* ParseFDE with FetchCIE: the CIE is parsed at the designated offset, wherever it lies relative to the FDE
 ParseFDE(bs, off, p) ==
@@ -684,6 +719,25 @@ EhCiesZFirst(p) == {EhCie(p, 1, <<cz, cR>>, 27, 0, 0, CdA, BundleC1, 0),
 EhCiesZMore(p) == {EhCie(p, 1, <<cz, cR>>, 27, 0, 0, CdB, <<>>, 1)}
 ScanParsZ == {Par("eh", TRUE, 32, 8, Addr400000, FALSE), Par("eh", TRUE, 32, 4, Addr0, FALSE),
               Par("eh", FALSE, 32, 8, Addr400000, FALSE)}
+\* pers mode (cfg CFI_pers_*): the personality routine pointer of the first CIE ranges over every pointer encoding
+\* x the value classes of its format: a value whose byte order shows (0x1234), the extremes of the field (all ones
+\* = -1 / largest unsigned, sign bit only = most negative / top bit, largest positive), a negative value whose byte
+\* order shows (-0x1234); LEB128: values whose last group has bit 6 set (read differently by the other LEB
+\* format) on either side of one- and two-group boundaries.  'R' (and 'L') follow 'P' in the augmentation so
+\* that the width consumed by the pointer is checked as well.
+PersRaws(f, asz) ==
+  IF f = 1 THEN {N(4660), N(64), N(127), N(128), N(8192)}
+  ELSE IF f = 9 THEN {N(4660), N(64), N(-1), N(-65), N(-300), N(-4660)}
+  ELSE LET w == FmtWidth(f, asz) IN
+       {W(LEn(4660, w)), W(Rep(255, w)), W([i \in 1..w |-> IF i = w THEN 128 ELSE 0]),
+        W([i \in 1..w |-> IF i = w THEN 127 ELSE 255]), W(LEs(-4660, w))}
+EhCiesPers(p) ==
+  UNION {       {Cie(1, <<cz, cP, cR>>, 1, -8, 16, 27, 0, e, v, BundleC1, 0) : v \in PersRaws(EncFmt(e), p.asz)}
+          \cup {Cie(3, <<cz, cP, cL, cR>>, 4, -128, 200, 3, 27, e, v, BundleC1, 1) : v \in PersRaws(EncFmt(e), p.asz)}
+         : e \in Enc18}
+PersParsQuick == {Par("eh", TRUE, 32, 8, Addr400000, FALSE), Par("eh", TRUE, 32, 4, Addr400000, FALSE),
+                  Par("eh", FALSE, 32, 8, Addr400000, FALSE), Par("eh", FALSE, 32, 4, Addr400000, FALSE)}
+PersParsThorough == PersParsQuick \cup ScanParsEh(FALSE) \cup {[q EXCEPT !.le = FALSE] : q \in ScanParsEh(FALSE)}
 DebugCies(p) == {Cie(1, <<>>, 1, -8, 16, 0, 0, 0, N(0), BundleC1, 0), Cie(3, <<>>, 4, -128, 200, 0, 0, 0, N(0), BundleC2, 3),
                  Cie(4, <<>>, 1, -8, 16, 0, 0, 0, N(0), <<>>, 0), Cie(4, <<>>, 4, -4, 200, 0, 0, 0, N(0), BundleC1, 1)}
 HiLoc(p) == IF p.asz = 4 THEN W(<<0, 240, 255, 255>>) ELSE W(<<0, 16, 0, 0, 255, 127, 0, 0>>)
@@ -769,7 +823,7 @@ NoCafDaf == {}
 (* of one FDE one instruction at a time, the interpreter state `ist`       *)
 (* following it step by step (Exec).                                       *)
 (* ---------------------------------------------------------------------- *)
-Scanning == Mode \in {"scan", "scanz"}
+Scanning == Mode \in {"scan", "scanz", "pers"}
 NoIst == [st |-> St0(Addr0), rows |-> <<>>, ctx |-> Ctx(1, 1, {}, FALSE, FALSE)]
 ProgCie(p, cp, cd) == IF p.sk = "debug" THEN Cie(3, <<>>, cd[1], cd[2], 16, 0, 0, 0, N(0), cp, 0)
                       ELSE Cie(1, <<cz, cR>>, cd[1], cd[2], 16, 0, 0, 0, N(0), cp, 0)
@@ -793,7 +847,7 @@ AddCIE(c) == /\ Scanning /\ Len(sec) < MaxEnts /\ Open
              /\ sec' = Append(sec, c) /\ dv' = Derive(par, sec') /\ UNCHANGED <<par, ist>>
 AddFDE(f) == /\ Scanning /\ Len(sec) < MaxEnts /\ Open
              /\ sec' = Append(sec, f) /\ dv' = Derive(par, sec') /\ UNCHANGED <<par, ist>>
-AddZero == /\ Scanning /\ par.sk = "eh" /\ Open
+AddZero == /\ Scanning /\ Mode # "pers" /\ par.sk = "eh" /\ Open
            /\ IF Mode = "scan" THEN Len(sec) >= 1 /\ Len(sec) <= MaxEnts ELSE Len(sec) < MaxEnts
            /\ sec' = Append(sec, Zero) /\ dv' = Derive(par, sec') /\ UNCHANGED <<par, ist>>
 AppendIns(l) == /\ Mode \in {"prog", "sim"} /\ Len(sec[2].ins) < MaxProg
@@ -809,6 +863,7 @@ SimLetters == IF Mode = "sim" THEN Letters \cup {I("DW_CFA_nop", <<>>)} ELSE Let
 
 Next ==
   \/ \E c \in (IF par.sk = "debug" THEN DebugCies(par)
+               ELSE IF Mode = "pers" THEN (IF CieIxs = {} THEN EhCiesPers(par) ELSE {})
                ELSE IF Mode = "scanz" THEN (IF CieIxs = {} THEN EhCiesZFirst(par) ELSE EhCiesZMore(par))
                ELSE IF CieIxs = {} THEN EhCiesFirst(par) ELSE EhCiesMore(par)) : AddCIE(c)
   \/ /\ par.sk = "debug"
@@ -816,7 +871,7 @@ Next ==
            /\ ci # Len(sec) + 1 /\ (ci <= Len(sec) => sec[ci].k = "CIE")
            /\ AddFDE(DebugFde(par, ci, cls))
   \/ /\ par.sk = "eh"
-     /\ \E ci \in CieIxs, cls \in {"lo", "hi"} : AddFDE(EhFde(par, ci, sec[ci], cls))
+     /\ \E ci \in CieIxs, cls \in (IF Mode = "pers" THEN {"hi"} ELSE {"lo", "hi"}) : AddFDE(EhFde(par, ci, sec[ci], cls))
   \/ AddZero
   \/ \E l \in SimLetters : AppendIns(l)
 Spec == Init /\ [][Next]_vars
@@ -895,6 +950,26 @@ SplitExact(sc) ==
      /\ LET bs == InsEncAll(sec[i].ins, par.asz, par.le) \o Rep(0, sec[i].pad)
             sp == SplitInstrs(bs, 0, Len(bs), par.asz, par.le)
         IN sp.stop = Len(bs) /\ sp.ins = InsListView(sec[i])
+\* Personality routine pointer: for every 'P' CIE of the section, decoding the encoded pointer consumes exactly
+\* the encoded bytes and recovers the stored value (decode(encode(v)) = v); re-encoding the decoded value gives the
+\* same bytes; the value is negative exactly when the format is signed and the sign bit of the stored field (of
+\* the last LEB group) is set; the signed number is among the admissible reports exactly then, and every
+\* admissible report designates the same address of the address space.
+PersRoundTrip ==
+  \A i \in 1..Len(sec) : (sec[i].k = "CIE" /\ Has(sec[i].aug, cP)) =>
+     LET c == sec[i]   f == EncFmt(c.penc)
+         bs == PtrEnc(par, f, c.pers)
+         d == PtrDec(bs, 0, f, par.asz, par.le)
+         back == IF FmtLeb(f) THEN N(GroupsInt(LebDec(bs, f = 9).val.g, f = 9)) ELSE W(DTrunc(d.v, FmtWidth(f, par.asz)))
+         signbit == IF FmtLeb(f) THEN bs[Len(bs)] >= 64 ELSE (IF par.le THEN bs[Len(bs)] ELSE bs[1]) >= 128
+         den == PersDen(par.asz, c.penc, d.v)
+     IN /\ d.used = Len(bs)
+        /\ d.v = Ext9(c.pers, FmtSigned(f))
+        /\ PtrEnc(par, f, back) = bs
+        /\ PersNeg(c.penc, d.v) = (FmtSigned(f) /\ signbit)
+        /\ d.v[9] \in {0, 255} /\ (~FmtSigned(f) => d.v[9] = 0)
+        /\ (WS(DTrunc(d.v, 8)) \in den) = PersNeg(c.penc, d.v)
+        /\ \A x \in den : DTrunc(x.d, par.asz) = DTrunc(d.v, par.asz)
 \* programs of the section with their start state and context
 Progs(vs) ==
   {IF sec[i].k = "CIE" THEN <<sec[i].ins, St0(Addr0), Ctx(sec[i].caf, sec[i].daf, {}, FALSE, FALSE)>>
@@ -932,6 +1007,7 @@ ScanInvariants ==
           /\ Named("EntriesInOrder", EntriesInOrder(o, bs, sc))
           /\ Named("FDELinkedToDesignatedCIE", FDELinkedToDesignatedCIE(o, bs, sc))
           /\ Named("SplitExact", SplitExact(sc))
+          /\ Named("PersRoundTrip", PersRoundTrip)
           /\ Named("TerminatorPrefix", par.sk = "eh" => TerminatorPrefix(vs, bs))
 InterpInvariants ==
   Good => /\ \A pr \in Progs(dv.vs) :
